@@ -1,5 +1,5 @@
 (* C01 - DWT analysis equals PyWavelets.  Statements only; proofs are in Proofs/. *)
-From PW Require Import Base.Ops Base.Sum Base.Sig Base.Tensor Model.Dwt Spec.Line Proofs.DwtNF Proofs.C01Proofs.
+From PW Require Import Base.Ops Base.Sum Base.Sig Base.Tensor Model.Dwt Spec.Line Proofs.DwtNF Proofs.C01Proofs Proofs.C01Proofs2D.
 
 (* One level, filtering along the last axis (the whole of the 1-D transform's level, and the row pass of the 2-D one),
    modes zero / symmetric / periodic for every length >= 1, reflect whenever the code does not raise:
@@ -25,6 +25,39 @@ Theorem C01_level_row_per :
          tf y n (2*c + t) i k = pywt_dwt_per Op L (tW x) (dsel d0 d1 t) (fun q => tf x n c i q) k).
 Proof. exact @afb1d_row_pywt_per. Qed.
 Print Assumptions C01_level_row_per.
+
+(* the column pass (filtering along the rows axis H), same statement *)
+Theorem C01_level_col :
+  forall (R:Type) (Op:Ops R) (Rth:RingOk Op) (x:@ten R) (L:Z) (d0 d1:Z->R) (mode:Z),
+  2 <= L -> 1 <= tW x -> 1 <= tH x -> 0 < tC x ->
+  level_ok mode L (tH x) -> (mode = M_REFLECT -> 2 <= tH x) ->
+  is_ok (afb1d Op x L (rev_filt L d0) (rev_filt L d1) mode 2)
+    (fun y => tN y = tN x /\ tC y = 2 * tC x /\ tW y = tW x /\ tH y = (tH x + L - 1)/2 /\
+       forall n c t k j, 0 <= t < 2 -> 0 <= j < tW x -> 0 <= k < (tH x + L - 1)/2 ->
+         tf y n (2*c + t) k j = pywt_dwt Op mode L (tH x) (dsel d0 d1 t) (fun q => tf x n c q j) k).
+Proof. exact @afb1d_col_pywt. Qed.
+Print Assumptions C01_level_col.
+
+(* one 2-D level (AFB2D.forward): for every image size, filter lengths, filters and the four non-periodization modes
+   (reflect whenever the code does not raise) the result is PyWavelets' dwt2 applied axis by axis - the ROW pair along the
+   last axis, the COLUMN pair along the rows axis - with bands (ll | lh, hl, hh) = (cA | cH, cV, cD): band b = 2t+s,
+   t = row band, s = column band *)
+Theorem C01_level_2d :
+  forall (R:Type) (Op:Ops R) (Rth:RingOk Op) (x:@ten R) Lr dr0 dr1 Lc dc0 dc1 mode,
+  2 <= Lr -> 2 <= Lc -> 1 <= tW x -> 1 <= tH x -> 0 < tC x ->
+  level_ok mode Lr (tW x) -> level_ok mode Lc (tH x) -> (mode = M_REFLECT -> 2 <= tW x /\ 2 <= tH x) ->
+  is_ok (AFB2D_fwd Op x Lr (rev_filt Lr dr0) (rev_filt Lr dr1) Lc (rev_filt Lc dc0) (rev_filt Lc dc1) mode)
+    (fun r => let '(low, highs) := r in
+       let H' := (tH x + Lc - 1)/2 in let W' := (tW x + Lr - 1)/2 in
+       tN low = tN x /\ tC low = tC x /\ tH low = H' /\ tW low = W' /\
+       tN highs = tN x /\ tC highs = 3 * tC x /\ tH highs = H' /\ tW highs = W' /\
+       forall n c i j, 0 <= c < tC x -> 0 <= i < H' -> 0 <= j < W' ->
+         tf low n c i j = pywt_dwt2 Op mode Lr dr0 Lc dc0 (tH x) (tW x) (fun p q => tf x n c p q) i j /\
+         forall b, 1 <= b < 4 ->
+           tf highs n (3*c + (b-1)) i j
+           = pywt_dwt2 Op mode Lr (dsel dr0 dr1 (b/2)) Lc (dsel dc0 dc1 (b mod 2)) (tH x) (tW x) (fun p q => tf x n c p q) i j).
+Proof. exact @AFB2D_pywt. Qed.
+Print Assumptions C01_level_2d.
 
 (* The guard is necessary: below the filter length the code (single fold) differs from PyWavelets.
    Witness: length 2, L = 4, dec = (1,2,3,4): the model (which the correspondence check ties to the code)
